@@ -225,8 +225,15 @@ func ruleC05_2(c *Ctx) {
 			return false
 		}, true)
 	}
-	// compare loops: ranges over stepMap whose body calls reflect.DeepEqual
-	nLoops := 0
+	// compare loops: loops that visit every link of the step and whose body calls reflect.DeepEqual. Either a range
+	// over the per-step map itself, or a range over the complete list of its keys (collected by an exhaustive range
+	// over the map; possibly sorted), the element being looked up in the map; the tail keys[1:] is complete when the
+	// reference link is the one under keys[0].
+	type cmpLoop struct {
+		header *ssa.BasicBlock
+		isIter func(v ssa.Value) bool
+	}
+	var loops []cmpLoop
 	for _, b := range f.Blocks {
 		for _, in := range b.Instrs {
 			rg, ok := in.(*ssa.Range)
@@ -242,8 +249,144 @@ func ruleC05_2(c *Ctx) {
 			if nx == nil {
 				continue
 			}
-			header := nx.Block()
 			iterVal := extractOf(nx, 2)
+			loops = append(loops, cmpLoop{nx.Block(), func(v ssa.Value) bool {
+				return iterVal != nil && derives(v, func(x ssa.Value) bool { return x == iterVal }, true)
+			}})
+		}
+	}
+	// key-list loops
+	isKeyList := func(K ssa.Value) bool {
+		for _, ml := range mapLoops(f) {
+			if ml.rng.X != stepMap || ml.key == nil {
+				continue
+			}
+			exhaustive := true
+			for bb := range ml.body {
+				if bb == ml.header || !reaches(bb, ml.header) {
+					continue
+				}
+				for _, sc := range bb.Succs {
+					if !ml.body[sc] && !c.failing(sc) {
+						exhaustive = false
+					}
+				}
+			}
+			if !exhaustive {
+				continue
+			}
+			for bb := range ml.body {
+				for _, in := range bb.Instrs {
+					k, ok := in.(*ssa.Call)
+					if !ok || calleeName(k) != "builtin:append" {
+						continue
+					}
+					if !derives(k.Call.Args[1], func(x ssa.Value) bool { return x == ml.key }, false) {
+						continue
+					}
+					uncond := false
+					if okv := extractOf(ml.next, 0); okv != nil {
+						for _, cu := range condUsers(okv, false) {
+							if branchTaken(cu, true) == bb {
+								uncond = true
+							}
+						}
+					}
+					if uncond && derives(K, func(x ssa.Value) bool { return x == ssa.Value(k) }, false) {
+						return true
+					}
+				}
+			}
+		}
+		return false
+	}
+	for _, l := range rangeLoops(f) {
+		if l.isMap {
+			continue
+		}
+		// the ranged slice: the value whose len bounds the induction variable
+		var ranged ssa.Value
+		var idx ssa.Value
+		for _, in := range l.header.Instrs {
+			ph, ok := in.(*ssa.Phi)
+			if !ok || ph.Comment != "rangeindex" {
+				continue
+			}
+			for _, r := range *ph.Referrers() {
+				if inc, ok := r.(*ssa.BinOp); ok && inc.Op == token.ADD {
+					idx = inc
+					for _, rr := range *inc.Referrers() {
+						if cmp, ok := rr.(*ssa.BinOp); ok && cmp.Op == token.LSS {
+							if k, ok := cmp.Y.(*ssa.Call); ok && calleeName(k) == "builtin:len" {
+								ranged = k.Call.Args[0]
+							}
+						}
+					}
+				}
+			}
+		}
+		if ranged == nil || idx == nil {
+			continue
+		}
+		K, low := resolve(ranged, nil), int64(0)
+		if sl, ok := K.(*ssa.Slice); ok && sl.High == nil {
+			if sl.Low != nil {
+				k, isK := constInt(sl.Low)
+				if !isK {
+					continue
+				}
+				low = k
+			}
+			K = resolve(sl.X, sl)
+		}
+		if low > 1 || !isKeyList(K) {
+			continue
+		}
+		rangedV, idxV, lowV, KV := ranged, idx, low, K
+		loops = append(loops, cmpLoop{l.header, func(v ssa.Value) bool {
+			// an element of the per-step map looked up under the current key of the list
+			return derives(v, func(x ssa.Value) bool {
+				lk, ok := x.(*ssa.Lookup)
+				if !ok || lk.X != stepMap {
+					return false
+				}
+				return derives(lk.Index, func(y ssa.Value) bool {
+					ia, ok := y.(*ssa.IndexAddr)
+					return ok && ia.Index == idxV && resolve(ia.X, ia) == resolve(rangedV, nil)
+				}, false)
+			}, true)
+		}})
+		if lowV == 1 {
+			// keys[1:] is complete only against the reference under keys[0]
+			refOK := false
+			for _, call := range callsIn(f, "reflect.DeepEqual") {
+				for _, a := range call.Common().Args {
+					if derives(a, func(x ssa.Value) bool {
+						lk, ok := x.(*ssa.Lookup)
+						if !ok || lk.X != stepMap {
+							return false
+						}
+						return derives(lk.Index, func(y ssa.Value) bool {
+							ia, ok := y.(*ssa.IndexAddr)
+							if !ok || resolve(ia.X, ia) != KV {
+								return false
+							}
+							k0, isK := constInt(ia.Index)
+							return isK && k0 == 0
+						}, false)
+					}, true) {
+						refOK = true
+					}
+				}
+			}
+			c.check(refOK, R, fn, "the tail keys[1:] is compared with the link under keys[0]", l.pos, "reference = linksPerStep[keys[0]]", "the compare loop skips the first key but the reference link is not the one under that key: one counted link is never compared")
+		}
+	}
+	nLoops := 0
+	for _, cl := range loops {
+		{
+			header := cl.header
+			isIter := cl.isIter
 			var eqM, eqP []*ssa.Call
 			for _, call := range callsIn(f, "reflect.DeepEqual") {
 				cc := call.(*ssa.Call)
@@ -251,8 +394,8 @@ func ruleC05_2(c *Ctx) {
 					continue
 				}
 				a0, a1 := org(cc.Call.Args[0]), org(cc.Call.Args[1])
-				d0 := iterVal != nil && derives(cc.Call.Args[0], func(x ssa.Value) bool { return x == iterVal }, true)
-				d1 := iterVal != nil && derives(cc.Call.Args[1], func(x ssa.Value) bool { return x == iterVal }, true)
+				d0 := isIter(cc.Call.Args[0])
+				d1 := isIter(cc.Call.Args[1])
 				r0, r1 := fromStepMap(cc.Call.Args[0]), fromStepMap(cc.Call.Args[1])
 				if !((d0 && r1) || (d1 && r0)) {
 					continue
